@@ -440,21 +440,32 @@ def gen_ndict(rnd, ctx, maxops):
     return dict(kind="ndict", vk=vk, ib=list(ib), init=init, ops=ops)
 
 
-# ---------------------------------------------------------------- List(List(...)) of any depth
+# ---------------------------------------------------------------- any nesting of List(...) and Dict(K, ...)
 def item_term(r):
+    if isinstance(r, dict):
+        return C("Dct", [(k, item_term(v)) for k, v in r["d"]])
     return C("Lst", [item_term(x) for x in r]) if isinstance(r, list) else C("Atom", r)
 
 
-def ttype_term(case):
-    t = C("TAtom", C(case["vk"]))
-    for mn, mx in reversed(case["bounds"]):
-        t = C("TList", t, mn, opt(mx))
+def ttype_term(t):
+    if t[0] == "A":
+        return C("TAtom", C(t[1]))
+    if t[0] == "L":
+        return C("TList", ttype_term(t[1]), t[2], opt(t[3]))
+    return C("TDict", C(t[1]), ttype_term(t[2]))
+
+
+def ltype(vk, bounds):
+    """List(List(...(vk))) with these bounds from the outermost level inwards"""
+    t = ["A", vk]
+    for mn, mx in reversed(bounds):
+        t = ["L", t, mn, mx]
     return t
 
 
 def gop_term(g):
     k = g[0]
-    if k == "GAppend":
+    if k in ("GAppend", "GRemove"):
         return C(k, item_term(g[1]))
     if k == "GExtend":
         return C(k, [item_term(r) for r in g[1]])
@@ -462,13 +473,28 @@ def gop_term(g):
         return C(k, g[1], item_term(g[2]))
     if k == "GSetSlice":
         return C(k, c05.sl_term(g[1]), [item_term(r) for r in g[2]])
-    if k == "GDelInt":
+    if k in ("GDelInt", "GImul"):
         return C(k, g[1])
     if k == "GDelSlice":
         return C(k, c05.sl_term(g[1]))
     if k == "GPop":
         return C(k, opt(g[1]))
+    if k == "GSort":
+        return C(k, bool(g[1]))
     if k in ("GReverse", "GClear"):
+        return C(k)
+    raise ValueError(g)
+
+
+def dgop_term(g):
+    k = g[0]
+    if k in ("DgSetItem", "DgSetDefault"):
+        return C(k, g[1], item_term(g[2]))
+    if k == "DgUpdate":
+        return C(k, [(a, item_term(r)) for a, r in g[1]])
+    if k in ("DgDelItem", "DgPop"):
+        return C(k, g[1])
+    if k == "DgClear":
         return C(k)
     raise ValueError(g)
 
@@ -476,74 +502,122 @@ def gop_term(g):
 def deep_term(case, obs):
     h = []
     for op, ob in zip(case["ops"], obs):
-        t = C("DPAssign", item_term(op[1])) if op[0] == "Assign" else C("DPath", [Nat(j) for j in op[1]], gop_term(op[2]))
+        if op[0] == "Assign":
+            t = C("DPAssign", item_term(op[1]))
+        else:
+            path = [C("PKey", e["k"]) if isinstance(e, dict) else C("PIdx", Nat(e)) for e in op[1]]
+            kind, g = op[2]
+            t = C("DPath", path, C("OnList", gop_term(g)) if kind == "L" else C("OnDict", dgop_term(g)))
         h.append((t, C("mkDP", out_l(ob["out"]), item_term(ob["after"]), Nat(ob["nev"]))))
-    return (ttype_term(case), item_term(case["init"]), h)
+    return (ttype_term(case["type"]), item_term(case["init"]), h)
+
+
+def gen_type(rnd, depth):
+    """a container type: nesting of lists (with bounds) and dicts (int keys) over an atomic trait"""
+    def go(d):
+        if d == 0:
+            return ["A", rnd.choice(["VInt", "VCInt", "VCInt", "VInc"])]
+        if rnd.random() < 0.65:
+            mn, mx = rnd.choice([(0, None), (0, None), (0, 2), (1, 3), (1, None), (0, 3), (2, 2)])
+            return ["L", go(d - 1), mn, mx]
+        return ["D", rnd.choice(["VInt", "VCInt"]), go(d - 1)]
+    return go(depth)
 
 
 def gen_deep(rnd, ctx, maxops):
-    vk = rnd.choice(["VInt", "VCInt", "VCInt", "VInc"])
     depth = rnd.choice([2, 3, 3, 4])
-    bounds = [rnd.choice([(0, None), (0, None), (0, 2), (1, 3), (1, None), (0, 3), (2, 2)]) for _ in range(depth)]
-    # bounds[0] is the outermost list; a value of "level d" is an element of the list at nesting depth d (level depth = atom)
+    t = gen_type(rnd, depth)
+    KEYS = [1, 2, 3, 4]
 
-    def valid(d):
-        """a valid stored value for level d (d = depth: an atom)"""
-        if d == depth:
+    def valid(t):
+        if t[0] == "A":
             return rnd.randint(1, 9)
-        mn, mx = bounds[d]
-        n = rnd.randint(mn, mx if mx is not None else mn + 2)
-        return [valid(d + 1) for _ in range(n)]
+        if t[0] == "L":
+            return [valid(t[1]) for _ in range(rnd.randint(t[2], t[3] if t[3] is not None else t[2] + 2))]
+        return {"d": [[k, valid(t[2])] for k in rnd.sample(KEYS, rnd.randint(0, 3))]}
 
-    def raw(d):
-        """a raw value offered where a level-d value is expected: mostly valid, else broken somewhere"""
+    def raw_key():
+        return rnd.choice(KEYS) if rnd.random() < 0.8 else rnd.choice([101, 102, 200, 7])
+
+    def raw(t):
+        """a raw value offered where a value of type t is expected: mostly valid, else broken somewhere"""
         r = rnd.random()
         if r < 0.6:
-            return valid(d)
+            return valid(t)
         if r < 0.7:                                        # wrong kind
-            return [1] if d == depth else rnd.choice([5, 200, 105])
-        if d == depth:
-            return rnd.choice([200, 105, 201, 103])        # invalid / convertible atom
-        v = valid(d)
-        if r < 0.85 and v:                                 # something broken further down
-            v[rnd.randrange(len(v))] = raw(d + 1)
-            return v
-        return [valid(d + 1) for _ in range(rnd.choice([0, 1, 2, 3, 4]))]     # possibly illegal length
+            return rnd.choice([5, 200, 105]) if t[0] != "A" else [1]
+        if t[0] == "A":
+            return rnd.choice([200, 105, 201, 103])
+        if t[0] == "L":
+            v = valid(t)
+            if r < 0.85 and v:
+                v[rnd.randrange(len(v))] = raw(t[1])
+                return v
+            return [valid(t[1]) for _ in range(rnd.choice([0, 1, 2, 3, 4]))]     # possibly illegal length
+        v = valid(t)
+        v["d"].append([rnd.choice([5, 105, 200]), raw(t[2])])
+        return v
 
-    init = valid(0)
+    init = valid(t)
     ops = []
     for _ in range(rnd.randint(1, maxops)):
         if rnd.random() < 0.12:
-            op = ["Assign", raw(0)]
+            ops.append(["Assign", raw(t)])
             ctx.count("op:deep.Assign")
-        else:
-            plen = rnd.randint(0, depth - 1)
-            path = [rnd.choice([0, 0, 1, 1, 2, 3]) for _ in range(plen)]
-            d = plen + 1                                    # items of the addressed list are level-d values
-            n = 2                                           # length hint only
-            k = rnd.choice(["GAppend", "GAppend", "GExtend", "GInsert", "GSetInt", "GSetInt", "GSetSlice", "GDelInt",
-                            "GDelSlice", "GPop", "GReverse", "GClear"])
-            if k == "GAppend":
-                g = [k, raw(d)]
+            continue
+        node, path = t, []
+        while node[0] != "A":
+            nxt = node[1] if node[0] == "L" else node[2]
+            if nxt[0] == "A" or rnd.random() < 0.45:
+                break
+            path.append(rnd.choice([0, 0, 1, 1, 2, 3]) if node[0] == "L" else {"k": rnd.choice(KEYS + [7])})
+            node = nxt
+        if node[0] == "L":
+            it, n = node[1], 2
+            kinds = ["GAppend", "GAppend", "GExtend", "GInsert", "GSetInt", "GSetInt", "GSetSlice", "GDelInt", "GDelSlice",
+                     "GPop", "GReverse", "GClear", "GImul"]
+            if "'D'" not in repr(it):       # == of dicts ignores their order and < raises: not modelled
+                kinds += ["GRemove", "GRemove", "GSort", "GSort"]
+            k = rnd.choice(kinds)
+            if k in ("GAppend", "GRemove"):
+                g = [k, raw(it) if k == "GAppend" or rnd.random() < 0.15 else valid(it)]
             elif k == "GExtend":
-                g = [k, [raw(d) for _ in range(rnd.randint(0, 3))]]
+                g = [k, [raw(it) for _ in range(rnd.randint(0, 3))]]
             elif k in ("GInsert", "GSetInt"):
-                g = [k, c05.gen_index(rnd, n), raw(d)]
+                g = [k, c05.gen_index(rnd, n), raw(it)]
             elif k == "GSetSlice":
-                s = c05.gen_slice(rnd, n)
-                g = [k, s, [raw(d) for _ in range(rnd.randint(0, 3))]]
+                g = [k, c05.gen_slice(rnd, n), [raw(it) for _ in range(rnd.randint(0, 3))]]
             elif k == "GDelInt":
                 g = [k, c05.gen_index(rnd, n)]
             elif k == "GDelSlice":
                 g = [k, c05.gen_slice(rnd, n)]
             elif k == "GPop":
                 g = [k, None if rnd.random() < 0.4 else c05.gen_index(rnd, n)]
+            elif k == "GSort":
+                g = [k, rnd.random() < 0.4]
+            elif k == "GImul":
+                # `*= n` with n >= 2 makes several positions hold the SAME container object: generated for lists of atoms only
+                g = [k, rnd.choice([-1, 0, 1, 2, 2, 3]) if it[0] == "A" else rnd.choice([-1, 0, 1])]
             else:
                 g = [k]
-            op = ["Path", path, g]
-            ctx.count("op:deep.depth%d.path%d.%s" % (depth, plen, k))
+            op = ["Path", path, ["L", g]]
+        else:
+            vt = node[2]
+            k = rnd.choice(["DgSetItem", "DgSetItem", "DgUpdate", "DgSetDefault", "DgDelItem", "DgPop", "DgClear"])
+            if k in ("DgSetItem", "DgSetDefault"):
+                g = [k, raw_key(), raw(vt)]
+            elif k == "DgUpdate":
+                ks = sorted(set(raw_key() for _ in range(rnd.randint(0, 3))))
+                g = [k, [[a, raw(vt)] for a in ks]]
+            elif k in ("DgDelItem", "DgPop"):
+                g = [k, raw_key()]
+            else:
+                g = [k]
+            op = ["Path", path, ["D", g]]
         ops.append(op)
-    return dict(kind="deep", vk=vk, bounds=[list(b) for b in bounds], init=init, ops=ops)
+        ctx.count("op:deep.depth%d.path%d.%s" % (depth, len(path), g[0]))
+    ctx.count("deep-root:" + t[0])
+    return dict(kind="deep", type=t, init=init, ops=ops)
 
 
 # ---------------------------------------------------------------- default values (first read)
@@ -600,7 +674,7 @@ def op_name(kind, op):
     if kind == "ndict" and op[0] == "Inner":
         return "Inner/" + c05.op_shape(op[2])
     if kind == "deep" and op[0] == "Path":
-        return "Path%d/%s" % (len(op[1]), op[2][0])
+        return "Path%d/%s" % (len(op[1]), op[2][1][0])
     if kind == "default":
         return "Read"
     return op[0]
@@ -694,11 +768,33 @@ def corpus():
     cs.append(dict(kind="list", vk="VInt", minlen=1, maxlen=3, init=[1, 2], init_mode="default", ops=[
         ["Append", 3], ["Append", 4], ["Pop", None], ["SetInt", 0, 200], ["Extend", None, "self"], ["Clear"],
         ["ImulQ", 1, 2, "float"], ["ImulQ", 5, 2, "float"], ["ImulQ", 3, 2, "fraction"], ["Imul", 0, "bool"]]))
-    cs.append(dict(kind="deep", vk="VCInt", bounds=[[1, 2], [1, None], [0, 2]], init=[[[1], []]], ops=[
-        ["Path", [0, 0], ["GAppend", 105]], ["Path", [0, 0], ["GAppend", 3]], ["Path", [0, 1], ["GAppend", 200]],
-        ["Path", [0], ["GSetInt", 1, [1, 2, 3]]], ["Path", [], ["GAppend", 7]], ["Path", [], ["GAppend", [[109]]]],
-        ["Path", [], ["GAppend", [[]]]], ["Path", [0], ["GClear"]], ["Assign", [[[4, 200]]]], ["Assign", [[[104]]]],
-        ["Path", [3], ["GClear"]], ["Path", [0, 0], ["GSetSlice", [None, None, -1], [7]]], ["Path", [0], ["GPop", None]]]))
+    L_ = lambda g: ["L", g]  # noqa
+    D_ = lambda g: ["D", g]  # noqa
+    cs.append(dict(kind="deep", type=ltype("VCInt", [[1, 2], [1, None], [0, 2]]), init=[[[1], []]], ops=[
+        ["Path", [0, 0], L_(["GAppend", 105])], ["Path", [0, 0], L_(["GAppend", 3])], ["Path", [0, 1], L_(["GAppend", 200])],
+        ["Path", [0], L_(["GSetInt", 1, [1, 2, 3]])], ["Path", [], L_(["GAppend", 7])], ["Path", [], L_(["GAppend", [[109]]])],
+        ["Path", [], L_(["GAppend", [[]]])], ["Path", [0], L_(["GClear"])], ["Assign", [[[4, 200]]]], ["Assign", [[[104]]]],
+        ["Path", [3], L_(["GClear"])], ["Path", [0, 0], L_(["GSetSlice", [None, None, -1], [7]])], ["Path", [0], L_(["GPop", None])]]))
+    cs.append(dict(kind="deep", type=ltype("VInt", [[0, None], [0, 3], [0, 4]]),
+                   init=[[[3, 1, 2], [1]], [[2], [1, 5]], [[3, 1, 2], [1]]], ops=[
+        ["Path", [], L_(["GSort", False])], ["Path", [0], L_(["GSort", True])], ["Path", [0, 0], L_(["GSort", False])],
+        ["Path", [], L_(["GRemove", [[3, 1, 2], [1]]])], ["Path", [], L_(["GRemove", [[9]]])], ["Path", [0, 0], L_(["GRemove", 1])],
+        ["Path", [0, 0], L_(["GImul", 2])], ["Path", [0, 0], L_(["GImul", 3])], ["Path", [0], L_(["GImul", 0])],
+        ["Path", [], L_(["GImul", -1])]]))
+    cs.append(dict(kind="deep", type=["D", "VCInt", ["D", "VInt", ["L", ["A", "VInt"], 0, 2]]],
+                   init={"d": [[1, {"d": [[5, [7]]]}]]}, ops=[
+        ["Path", [{"k": 1}, {"k": 5}], L_(["GAppend", 8])], ["Path", [{"k": 1}, {"k": 5}], L_(["GAppend", 9])],
+        ["Path", [{"k": 1}], D_(["DgSetItem", 6, [1, 2, 3]])], ["Path", [{"k": 1}], D_(["DgSetItem", 106, []])],
+        ["Path", [], D_(["DgSetItem", 102, {"d": [[4, [200]]]}])], ["Path", [], D_(["DgSetItem", 102, {"d": [[4, [2]]]}])],
+        ["Path", [{"k": 2}, {"k": 4}], L_(["GPop", None])], ["Path", [{"k": 9}], D_(["DgClear"])],
+        ["Path", [], D_(["DgUpdate", [[3, {"d": []}], [103, {"d": [[1, [1]]]}]]])], ["Path", [], D_(["DgSetDefault", 1, 5])],
+        ["Path", [], D_(["DgSetDefault", 4, 5])], ["Path", [], D_(["DgPop", 3])], ["Path", [], D_(["DgDelItem", 77])],
+        ["Assign", {"d": [[1, {"d": [[2, [1, 2, 3]]]}]]}], ["Assign", {"d": [[101, {"d": [[2, [1, 2]]]}]]}],
+        ["Path", [{"k": 1}], D_(["DgClear"])]]))
+    cs.append(dict(kind="deep", type=["L", ["D", "VInt", ["L", ["A", "VCInt"], 1, 2]], 0, 2], init=[{"d": [[1, [1]]]}], ops=[
+        ["Path", [], L_(["GAppend", {"d": [[2, [105]]]}])], ["Path", [], L_(["GAppend", {"d": []}])],
+        ["Path", [1, {"k": 2}], L_(["GAppend", 106])], ["Path", [1, {"k": 2}], L_(["GAppend", 7])],
+        ["Path", [1], D_(["DgSetItem", 3, []])], ["Path", [0], D_(["DgSetItem", 200, [1]])], ["Path", [], L_(["GReverse"])]]))
     cs.append(dict(kind="list", vk="VCInt", minlen=2, maxlen=None, init=[1, 2], ops=[
         ["Pop", 0], ["DelInt", 9], ["DelSlice", [0, 1, None]], ["SetSlice", [0, 2, None], [105]],
         ["SetSlice", [0, 2, None], [105, 106, 7]], ["Extend", [103, 200]], ["Extend", [103]],
